@@ -247,4 +247,103 @@ func runC43(c *Ctx) {
 	c.Check(nWalkers >= 6, "walkers-inventory", "plumbing/object:seen-keeping-walkers", token.NoPos, itoa(nWalkers)+" walkers that keep a seen set: "+strings.Join(names, ", "))
 	c.Floor(r1, 12)
 	c.Floor(r2, 6)
+	checkExploreHeapOrder(c, "explore-heap-ordered-by-cutoff-key")
+	c.Floor("explore-heap-ordered-by-cutoff-key", 2)
+}
+
+// checkExploreHeapOrder: the topological commit-graph walker stops exploring when the top of its explore heap has a
+// generation below the level it needs (`top.GenerationV2() < minimumLevel`, or Generation() without v2 data). That cut
+// is only sound if the heap is ordered by the same quantity: everything still in the heap is then below the level,
+// too. So the comparator the explore heaps are built with must order its two operands by each accessor the cut uses
+// (an ordering comparison of left.Acc() with right.Acc()); ordered by anything else — commit time under clock skew —
+// the cut leaves edges uncounted, parents come out before children and commits twice.
+func checkExploreHeapOrder(c *Ctx, rule string) {
+	p := c.P
+	const cgo = "plumbing/object/commitgraph"
+	pk := p.Pkg(cgo)
+	if pk == nil {
+		c.Unresolved(rule, "package "+cgo, 0, "not loaded")
+		return
+	}
+	info := pk.TypesInfo
+	next := c.MustFunc(rule, cgo+".(*commitNodeIteratorTopological).Next")
+	if next == nil {
+		return
+	}
+	c.Analysed(next)
+	// accessors used in a cut: `if X.Acc() < V { break }` inside a loop
+	accs := map[string]token.Pos{}
+	ast.Inspect(next.Decl.Body, func(n ast.Node) bool {
+		ifs, ok := n.(*ast.IfStmt)
+		if !ok || len(ifs.Body.List) != 1 {
+			return true
+		}
+		if br, ok := ifs.Body.List[0].(*ast.BranchStmt); !ok || br.Tok != token.BREAK {
+			return true
+		}
+		be, ok := unparen(ifs.Cond).(*ast.BinaryExpr)
+		if !ok || (be.Op != token.LSS && be.Op != token.LEQ) {
+			return true
+		}
+		if call, ok := unparen(be.X).(*ast.CallExpr); ok && len(call.Args) == 0 {
+			if sel, ok := unparen(call.Fun).(*ast.SelectorExpr); ok {
+				accs[sel.Sel.Name] = ifs.Pos()
+			}
+		}
+		return true
+	})
+	if len(accs) == 0 {
+		c.Unresolved(rule, next.Name()+":cut", next.Decl.Pos(), "no `if top.Acc() < level { break }` cut found")
+		return
+	}
+	// comparators handed to binaryheap.NewWith in the package
+	comps := map[*FuncInfo]bool{}
+	for _, fi := range p.FuncsIn(cgo) {
+		if fi.Decl.Body == nil || p.isTestFile(fi.Decl.Pos()) {
+			continue
+		}
+		walkCalls(fi.Decl.Body, true, func(call *ast.CallExpr) {
+			fn := Callee(info, call)
+			if fn == nil || fn.Name() != "NewWith" || len(call.Args) != 1 {
+				return
+			}
+			if cf := p.FuncOf(func() *types.Func { f, _ := objOf(info, call.Args[0]).(*types.Func); return f }()); cf != nil {
+				comps[cf] = true
+			}
+		})
+	}
+	if len(comps) == 0 {
+		c.Unresolved(rule, cgo+":comparators", next.Decl.Pos(), "no comparator handed to binaryheap.NewWith found")
+		return
+	}
+	for cmp := range comps {
+		c.Analysed(cmp)
+		for acc := range accs {
+			ordered := false
+			ast.Inspect(cmp.Decl.Body, func(n ast.Node) bool {
+				be, ok := n.(*ast.BinaryExpr)
+				if !ok || (be.Op != token.LSS && be.Op != token.GTR && be.Op != token.LEQ && be.Op != token.GEQ) {
+					return true
+				}
+				recv := func(e ast.Expr) types.Object {
+					call, ok := unparen(e).(*ast.CallExpr)
+					if !ok || len(call.Args) != 0 {
+						return nil
+					}
+					sel, ok := unparen(call.Fun).(*ast.SelectorExpr)
+					if !ok || sel.Sel.Name != acc {
+						return nil
+					}
+					return objOf(info, sel.X)
+				}
+				l, r := recv(be.X), recv(be.Y)
+				if l != nil && r != nil && l != r {
+					ordered = true
+				}
+				return true
+			})
+			c.Check(ordered, rule, cmp.Name()+":"+acc, cmp.Decl.Pos(), orStr(ifStr(!ordered, "the walker cuts exploration on "+acc+"() of the heap's top, but the comparator the heap is built with never orders its operands by "+acc+"(): entries below the top can still be above the level, their edges are not counted, parents are emitted before children and commits twice (clock skew makes commit time and generation disagree)"),
+				"the heap is ordered by "+acc+"(), the quantity the cut tests"))
+		}
+	}
 }
